@@ -23,17 +23,75 @@ package structs
 //@   pure
 //@ end
 
-// C02 (A AND B = intersection, A OR B = union): see
-// /verif/bounded/structs/joinrequest_test.go.  BOUNDED stand-in, never counted
-// as proved: the function iterates Go maps and the contract language has no
-// "every key was visited" rule for map ranges.
-//@ func (*SegmentSearchRequest).JoinRequest
-//@   props C02
-//@   bounded structs/joinrequest_test.go Test_Bounded_JoinRequest blocks {0,1}, columns {a,b}, every pair of requests (25 x 25) and both operators (1250 inputs): blocks = intersection (AND) / union (OR), per block the union of the columns that passed the micro-index check
-//@ end
+// C02 (A AND B = intersection, A OR B = union), JoinRequest.  Proved below for
+// every request size (visited-set rule for ranges over Go maps): the blocks of
+// the joined request are exactly the intersection / union, and in the OR branch
+// every column that passed toJoin's micro-index check for a block is in that
+// block's column set afterwards.  The bounded harness
+// /verif/bounded/structs/joinrequest_test.go stays as a complement for what is
+// not proved (exact per-block column sets, AND-branch columns): it is a BOUNDED
+// stand-in and never counted as proved.
 
 // counters of the in-memory segment store summary: frame only
 //@ func (*AllSegStoreSummary).DecrementTotalSegKeyCount
 //@   assumed
 //@   modifies fieldsof(AllSegStoreSummary)
+//@ end
+
+// Deductive part of JoinRequest, OR branch (A OR B = union): the joined request
+// searches every block either side searches, and for every block of toJoin the
+// columns that passed its micro-index check are added to the block's column set
+// (also when the block was already present).  Ranges over Go maps: visited-set
+// rule.  The two requests and their maps are distinct objects (preconditions).
+//@ func (*SegmentSearchRequest).JoinColumnInfo
+//@   assumed
+//@   modifies mapof(ssr.AllPossibleColumns)
+//@ end
+//@ spec joinSep(ssr *SegmentSearchRequest, toJoin *SegmentSearchRequest) bool = ssr != nil && toJoin != nil && ssr != toJoin && ssr.AllBlocksToSearch != nil && ssr.CmiPassedCnames != nil && ssr.AllBlocksToSearch != toJoin.AllBlocksToSearch && ssr.CmiPassedCnames != toJoin.CmiPassedCnames
+//@ func (*SegmentSearchRequest).JoinRequest
+//@   props C02
+//@   requires joinSep(ssr, toJoin)
+//@   requires [columns-map-separate] forallkey(b, uint16, implies(haskey(ssr.CmiPassedCnames, b), ssr.CmiPassedCnames[b] != ssr.AllPossibleColumns))
+//@   requires [inner-maps-not-shared] forallkey(b, uint16, forallkey(b2, uint16, implies(haskey(ssr.CmiPassedCnames, b) && haskey(toJoin.CmiPassedCnames, b2), ssr.CmiPassedCnames[b] != toJoin.CmiPassedCnames[b2])))
+//@   loop 1:
+//@     invariant [frame] joinSep(ssr, toJoin) && ssr.AllBlocksToSearch == old(ssr.AllBlocksToSearch) && toJoin.AllBlocksToSearch == old(toJoin.AllBlocksToSearch) && ssr.CmiPassedCnames == old(ssr.CmiPassedCnames) && toJoin.CmiPassedCnames == old(toJoin.CmiPassedCnames)
+//@     invariant [source-blocks-unchanged] forallkey(b, uint16, haskey(toJoin.AllBlocksToSearch, b) == old(haskey(toJoin.AllBlocksToSearch, b)))
+//@     invariant [and-only-shrinks] forallkey(b, uint16, implies(haskey(ssr.AllBlocksToSearch, b), old(haskey(ssr.AllBlocksToSearch, b))))
+//@     invariant [and-dropped-are-not-in-tojoin] forallkey(b, uint16, implies(old(haskey(ssr.AllBlocksToSearch, b)) && !haskey(ssr.AllBlocksToSearch, b), !haskey(toJoin.AllBlocksToSearch, b)))
+//@     invariant [and-visited-survivors-are-in-tojoin] forallkey(b, uint16, implies(visited(1, b) && haskey(ssr.AllBlocksToSearch, b), haskey(toJoin.AllBlocksToSearch, b)))
+//@   loop 2:
+//@     invariant [frame] joinSep(ssr, toJoin) && ssr.AllBlocksToSearch == old(ssr.AllBlocksToSearch) && toJoin.AllBlocksToSearch == old(toJoin.AllBlocksToSearch) && ssr.CmiPassedCnames == old(ssr.CmiPassedCnames) && toJoin.CmiPassedCnames == old(toJoin.CmiPassedCnames)
+//@     invariant [source-blocks-unchanged] forallkey(b, uint16, haskey(toJoin.AllBlocksToSearch, b) == old(haskey(toJoin.AllBlocksToSearch, b)))
+//@     invariant [and-only-shrinks] forallkey(b, uint16, implies(haskey(ssr.AllBlocksToSearch, b), old(haskey(ssr.AllBlocksToSearch, b))))
+//@     invariant [and-dropped-are-not-in-tojoin] forallkey(b, uint16, implies(old(haskey(ssr.AllBlocksToSearch, b)) && !haskey(ssr.AllBlocksToSearch, b), !haskey(toJoin.AllBlocksToSearch, b)))
+//@     invariant [and-visited-survivors-are-in-tojoin] forallkey(b, uint16, implies(visited(1, b) && haskey(ssr.AllBlocksToSearch, b), haskey(toJoin.AllBlocksToSearch, b)))
+//@   loop 3:
+//@     invariant [frame] joinSep(ssr, toJoin) && ssr.AllBlocksToSearch == old(ssr.AllBlocksToSearch) && toJoin.AllBlocksToSearch == old(toJoin.AllBlocksToSearch) && ssr.CmiPassedCnames == old(ssr.CmiPassedCnames) && toJoin.CmiPassedCnames == old(toJoin.CmiPassedCnames)
+//@     invariant [range-not-disturbed] untainted(3)
+//@     invariant [source-blocks-unchanged] forallkey(b, uint16, haskey(toJoin.AllBlocksToSearch, b) == old(haskey(toJoin.AllBlocksToSearch, b)))
+//@     invariant [own-blocks-kept] forallkey(b, uint16, implies(old(haskey(ssr.AllBlocksToSearch, b)), haskey(ssr.AllBlocksToSearch, b)))
+//@     invariant [added-blocks-come-from-tojoin] forallkey(b, uint16, implies(haskey(ssr.AllBlocksToSearch, b), old(haskey(ssr.AllBlocksToSearch, b)) || haskey(toJoin.AllBlocksToSearch, b)))
+//@     invariant [visited-blocks-joined] forallkey(b, uint16, implies(visited(3, b), haskey(ssr.AllBlocksToSearch, b)))
+//@     invariant [tojoin-columns-unchanged] forallkey(b, uint16, toJoin.CmiPassedCnames[b] == old(toJoin.CmiPassedCnames[b]) && haskey(toJoin.CmiPassedCnames, b) == old(haskey(toJoin.CmiPassedCnames, b)) && forallkey(c, string, haskey(toJoin.CmiPassedCnames[b], c) == old(haskey(toJoin.CmiPassedCnames[b], c))))
+//@     invariant [columns-map-separate] ssr.AllPossibleColumns == old(ssr.AllPossibleColumns) && forallkey(b, uint16, implies(haskey(ssr.CmiPassedCnames, b), ssr.CmiPassedCnames[b] != ssr.AllPossibleColumns))
+//@     invariant [inner-maps-exist] forallkey(b, uint16, implies(haskey(ssr.CmiPassedCnames, b), allocated(ssr.CmiPassedCnames[b])))
+//@     invariant [inner-maps-not-shared] forallkey(b, uint16, forallkey(b2, uint16, implies(haskey(ssr.CmiPassedCnames, b) && haskey(toJoin.CmiPassedCnames, b2), ssr.CmiPassedCnames[b] != toJoin.CmiPassedCnames[b2])))
+//@     invariant [visited-blocks-have-the-columns-of-tojoin] forallkey(b, uint16, implies(visited(3, b), haskey(ssr.CmiPassedCnames, b) && forallkey(c, string, implies(haskey(toJoin.CmiPassedCnames[b], c), haskey(ssr.CmiPassedCnames[b], c)))))
+//@   loop 4:
+//@     invariant [frame] joinSep(ssr, toJoin) && ssr.AllBlocksToSearch == old(ssr.AllBlocksToSearch) && toJoin.AllBlocksToSearch == old(toJoin.AllBlocksToSearch) && ssr.CmiPassedCnames == old(ssr.CmiPassedCnames) && toJoin.CmiPassedCnames == old(toJoin.CmiPassedCnames)
+//@     invariant [range-not-disturbed] untainted(3)
+//@     invariant [source-blocks-unchanged] forallkey(b, uint16, haskey(toJoin.AllBlocksToSearch, b) == old(haskey(toJoin.AllBlocksToSearch, b)))
+//@     invariant [own-blocks-kept] forallkey(b, uint16, implies(old(haskey(ssr.AllBlocksToSearch, b)), haskey(ssr.AllBlocksToSearch, b)))
+//@     invariant [added-blocks-come-from-tojoin] forallkey(b, uint16, implies(haskey(ssr.AllBlocksToSearch, b), old(haskey(ssr.AllBlocksToSearch, b)) || haskey(toJoin.AllBlocksToSearch, b)))
+//@     invariant [visited-blocks-joined] forallkey(b, uint16, implies(visited(3, b), haskey(ssr.AllBlocksToSearch, b)))
+//@     invariant [tojoin-columns-unchanged] forallkey(b, uint16, toJoin.CmiPassedCnames[b] == old(toJoin.CmiPassedCnames[b]) && haskey(toJoin.CmiPassedCnames, b) == old(haskey(toJoin.CmiPassedCnames, b)) && forallkey(c, string, haskey(toJoin.CmiPassedCnames[b], c) == old(haskey(toJoin.CmiPassedCnames[b], c))))
+//@     invariant [columns-map-separate] ssr.AllPossibleColumns == old(ssr.AllPossibleColumns) && forallkey(b, uint16, implies(haskey(ssr.CmiPassedCnames, b), ssr.CmiPassedCnames[b] != ssr.AllPossibleColumns))
+//@     invariant [inner-maps-exist] forallkey(b, uint16, implies(haskey(ssr.CmiPassedCnames, b), allocated(ssr.CmiPassedCnames[b])))
+//@     invariant [inner-maps-not-shared] forallkey(b, uint16, forallkey(b2, uint16, implies(haskey(ssr.CmiPassedCnames, b) && haskey(toJoin.CmiPassedCnames, b2), ssr.CmiPassedCnames[b] != toJoin.CmiPassedCnames[b2])))
+//@     invariant [visited-blocks-have-the-columns-of-tojoin] forallkey(b, uint16, implies(visited(3, b) && b != blockNum, haskey(ssr.CmiPassedCnames, b) && forallkey(c, string, implies(haskey(toJoin.CmiPassedCnames[b], c), haskey(ssr.CmiPassedCnames[b], c)))))
+//@     invariant [current-block] visited(3, blockNum) && haskey(ssr.CmiPassedCnames, blockNum) && untainted(4) && forallkey(c, string, implies(visited(4, c), haskey(ssr.CmiPassedCnames[blockNum], c)))
+//@   ensures [and-searches-the-intersection-of-blocks] implies(op == And, forallkey(b, uint16, haskey(ssr.AllBlocksToSearch, b) == (old(haskey(ssr.AllBlocksToSearch, b)) && old(haskey(toJoin.AllBlocksToSearch, b)))))
+//@   ensures [or-searches-the-union-of-blocks] implies(op != And, forallkey(b, uint16, haskey(ssr.AllBlocksToSearch, b) == (old(haskey(ssr.AllBlocksToSearch, b)) || old(haskey(toJoin.AllBlocksToSearch, b)))))
+//@   ensures [or-adds-the-columns-of-tojoin] implies(op != And, forallkey(b, uint16, forallkey(c, string, implies(old(haskey(toJoin.AllBlocksToSearch, b)) && old(haskey(toJoin.CmiPassedCnames[b], c)), haskey(ssr.CmiPassedCnames, b) && haskey(ssr.CmiPassedCnames[b], c)))))
+//@   bounded structs/joinrequest_test.go Test_Bounded_JoinRequest blocks {0,1}, columns {a,b}, every pair of requests (25 x 25) and both operators (1250 inputs): blocks = intersection (AND) / union (OR), per block the union of the columns that passed the micro-index check
 //@ end
